@@ -486,3 +486,15 @@ Definition batch_errors (descs : list ddesc) (root : dnode) (data : json) (d : d
 Definition initial_failed (descs : list ddesc) (root : dnode) (data : json) : bool :=
   let '(_, s1, _, _) := dwalk descs None root data [] [] false false (wst0 []) in
   match s1 with WOk => false | _ => true end.
+
+(* ---------------------------------------------------------------- 1b. Flush boundaries
+   What the response writer is handed by each Flush call (the frames written between two Flush calls):
+   exactly one frame per Flush -- never nothing, never two -- and no Flush after the frame that says
+   hasNext:false (the final frame). *)
+Fixpoint flushes_scan (fl : list (list fsum)) (final_seen : bool) : bool :=
+  match fl with
+  | [] => true
+  | [f] :: r => negb final_seen && flushes_scan r (negb (f_hasnext f))
+  | _ :: _ => false
+  end.
+Definition flushes_ok_b (fl : list (list fsum)) : bool := flushes_scan fl false.
